@@ -1447,6 +1447,14 @@ def _run_proof(ctx, fi, e, idx_name, depth=0):
     all(b - a == 1 for a, b in zip(idx[:-1], idx[1:])) / all(np.diff(idx) == 1) / a private helper returning one of these."""
     if depth > 2:
         return None
+    if isinstance(e, ast.BoolOp) and isinstance(e.op, ast.And):
+        for x in e.values:                                   # a conjunction proves what any of its conjuncts proves
+            got = _run_proof(ctx, fi, x, idx_name, depth)
+            if got:
+                return got
+        return None
+    if isinstance(e, ast.Call) and call_name(e) == "bool" and len(e.args) == 1 and not isinstance(e.func, ast.Attribute):
+        return _run_proof(ctx, fi, e.args[0], idx_name, depth)
     if isinstance(e, ast.Call) and call_name(e) == "all" and len(e.args) == 1:
         g = e.args[0]
         if isinstance(g, (ast.GeneratorExp, ast.ListComp)) and len(g.generators) == 1 and not g.generators[0].ifs:
